@@ -11,19 +11,21 @@ MIR_DIR = os.path.join(CACHE, "mir")
 MIR_TARGET = os.path.join(CACHE, "mir-target")
 
 
-def dump_path():
-    return os.path.join(MIR_DIR, repo_src_hash() + ".mir")
+def dump_path(features=None):
+    return os.path.join(MIR_DIR, repo_src_hash() + (".f-" + features.replace(",", "-") if features else "") + ".mir")
 
 
-def ensure_dump():
+def ensure_dump(features=None):
     os.makedirs(MIR_DIR, exist_ok=True)
-    p = dump_path()
+    p = dump_path(features)
     if os.path.exists(p) and os.path.getsize(p) > 100000:
         return p, 0.0
     t0 = time.time()
     h = repo_src_hash()[:16]
     cmd = ["cargo", "+nightly", "rustc", "--offline", "--lib", "--target-dir", MIR_TARGET, "--", "-Zunpretty=mir",
            "-C", "debug-assertions=off", "-C", "overflow-checks=on", "--cfg", "verif_mir_" + h]
+    if features:
+        cmd[cmd.index("--lib") + 1:cmd.index("--lib") + 1] = ["--features", features]
     r = subprocess.run(cmd, cwd=REPO, env=env_offline(), stdout=subprocess.PIPE, stderr=subprocess.PIPE, text=True)
     if r.returncode != 0 or len(r.stdout) < 100000:
         raise RuntimeError("MIR dump failed:\n" + r.stderr[-3000:])
@@ -45,9 +47,10 @@ def ensure_dump():
 _cache = {}
 
 
-def load_engine():
-    """Fresh Engine over the current dump (parsed functions are shared between engines)."""
-    p, secs = ensure_dump()
+def load_engine(features=None):
+    """Fresh Engine over the current dump (parsed functions are shared between engines).
+    `features`: cargo features of /repo to enable for the dump (the io modules are feature-gated)."""
+    p, secs = ensure_dump(features)
     if p not in _cache:
         with open(p) as fh:
             _cache[p] = mir_parse.Dump(fh.read())
